@@ -40,6 +40,8 @@ def load_table(fb):
             libtok, E = Val("library"), Val("load-error")
             selfv = [UNKNOWN for _ in w.fields]
             marks = Map()
+            outer = Val("outer-library-being-loaded")        # an enclosing load in progress: its mark must survive everything
+            marks.d[machine.key_of(outer)] = (outer, True)
             if scenario == "in-progress":
                 marks.d[machine.key_of(lib)] = (lib, True)
             selfv[w.fields.index("imported_library")] = marks
@@ -58,7 +60,9 @@ def load_table(fb):
             except (absint.Stuck, absint.Loop) as e:
                 rows.append((scenario + suffix, {"stuck": str(e)}))
                 continue
-            rows.append((scenario + suffix, {"result": res, "loads": ev, "marks_left": len(marks.d), "error": E}))
+            rows.append((scenario + suffix, {"result": res, "loads": [(a, b - 1) for a, b in ev], "error": E,
+                                             "marks_left": len(marks.d) - (1 if machine.key_of(outer) in marks.d else 0),
+                                             "outer_kept": machine.key_of(outer) in marks.d}))
     return w.f, rows
 
 
@@ -90,6 +94,10 @@ def rule_load(ctx, rule_pairing, rule_cycle):
             good = getattr(res, "name", None) == "Err" and bool(find_enum(res, "LibraryImportCyclic")) and not d["loads"] and d["marks_left"] == 1
             msg = "importing a library that is being loaded yields %r (loads: %d, marks left: %d); expected Err(LibraryImportCyclic), no load, " \
                   "the outer mark untouched" % (res, len(d["loads"]), d["marks_left"])
+        if not d.get("outer_kept", True):
+            good = False
+            msg = "importing a library removes the in-progress mark of an enclosing library that is still being loaded (a cycle through it " \
+                  "would no longer be detected); " + msg
         ctx.inst(rule, key, {"ok": bool(good)})
         ctx.oblige(bool(good))
         if not good:
@@ -515,4 +523,81 @@ def rule_reader(ctx, rule):
         ctx.oblige(bool(good))
         if not good:
             ctx.report(rule, key, msg, where_of(f))
+    return decided
+
+
+# ------------------------------------------------------------------------------------------------ one body statement
+
+
+def statement_table(fb):
+    """eval_expression_or_definition(statement, ENV) on a definition and on a syntax definition: what is written where.  Used for a
+    library body: ENV is the library's own environment, and nothing of the interpreter (its `env`, its `syntax_env`) may change."""
+    f = fb.find(ITP + "eval_expression_or_definition")
+    st = dict((n, i) for i, n in fb.variants("parser::parser::Statement"))
+    fields = [x["name"] for x in fb.adt("interpreter::interpreter::Interpreter")["variants"][0]["fields"]]
+    rows = []
+    for kind in ("definition", "syntax-definition"):
+        own_env, own_syntax, lib_env = Val("interpreter-env"), Val("interpreter-syntax-env"), Val("library-env")
+        selfv = [UNKNOWN for _ in fields]
+        selfv[fields.index("env")] = own_env
+        if "syntax_env" in fields:
+            selfv[fields.index("syntax_env")] = own_syntax
+        if kind == "definition":
+            body = [("x"), Val("expression")]
+            located = Enum(0, [body, some([4, 2])])
+            located.name, located.adt = "Located", "error::Located"
+            stmt = Enum(st["Definition"], [located])
+        else:
+            body = ["my-macro", Val("transformer")]
+            located = Enum(0, [body, some([4, 2])])
+            located.name, located.adt = "Located", "error::Located"
+            stmt = Enum(st["SyntaxDefinition"], [located])
+        stmt.adt = "parser::parser::Statement"
+        ev = []
+
+        def icpt(mc, c, a, tt, g, ev=ev):
+            if c.endswith("Interpreter::eval_expression"):
+                ev.append(("eval", a[0], a[1] if len(a) > 1 else None))
+                return ok(Val("value"))
+            if c in ("environment::LexicalScope::define", "environment::LexicalScope::set"):
+                ev.append(("write", a[0], a[1]))
+                return [] if c.endswith("define") else ok([])
+            if c.endswith("::clone") and a and isinstance(a[0], Val):
+                return a[0]
+            return NOT
+        mc = Machine(fb, intercept=icpt, max_visits=8, budget=600)
+        try:
+            res = mc.run(f, [selfv, stmt, lib_env])
+        except (absint.Stuck, absint.Loop) as e:
+            rows.append((kind, {"stuck": str(e)}))
+            continue
+        rows.append((kind, {"result": res, "events": ev, "own_env": own_env, "own_syntax": own_syntax, "lib_env": lib_env}))
+    return f, rows
+
+
+def rule_statement(ctx, rule):
+    fb = ctx.fb()
+    from .ctx import where_of
+    try:
+        f, rows = statement_table(fb)
+    except mir.AnchorMissing as e:
+        ctx.undecided(rule, "body-statement", str(e))
+        return 0
+    decided = 0
+    for kind, d in rows:
+        key = "body-statement/%s" % kind
+        if "stuck" in d:
+            ctx.undecided(rule, key, "cannot follow eval_expression_or_definition (%s)" % d["stuck"], where_of(f))
+            continue
+        decided += 1
+        writes = [e for e in d["events"] if e[0] == "write"]
+        foreign = [e for e in writes if e[1] is not d["lib_env"]]
+        name = "x" if kind == "definition" else "my-macro"
+        good = not foreign and [e[2] for e in writes] == [name]
+        ctx.inst(rule, key, {"writes": [(repr(e[1]), e[2]) for e in writes]})
+        ctx.oblige(good)
+        if not good:
+            ctx.report(rule, key, "evaluating a %s in the body of a library writes %s; expected exactly one binding, `%s`, in the library's own "
+                       "environment — a write to the interpreter's environment or syntax environment makes an unexported definition visible to "
+                       "the importer" % (kind.replace("-", " "), [(repr(e[1]), e[2]) for e in writes], name), where_of(f))
     return decided
